@@ -409,13 +409,13 @@ def rule_functions_below_modules(repo, chk, R):
         valvar = lp.target.elts[1].id if isinstance(lp.target, ast.Tuple) and len(lp.target.elts) == 2 and isinstance(lp.target.elts[1], ast.Name) else (
             lp.target.id if isinstance(lp.target, ast.Name) and it == "called_from.values()" else None)
         for c in ast.walk(lp):
-            if isinstance(c, ast.Call) and isinstance(c.func, ast.Attribute) and c.func.attr in ("update",) and c.args \
+            if isinstance(c, ast.Call) and isinstance(c.func, ast.Attribute) and c.func.attr in ("update", "add") and c.args \
                     and ("called_from" in norm(c.func.value) or (valvar and norm(c.func.value) == valvar)):
                 found = True
                 a = c.args[0]
                 detail.append(norm(a))
                 ids = live_ids(cfg, c)
-                full = all_modules(a, c)
+                full = c.func.attr == "update" and all_modules(a, c)     # .add(x) adds a single scope
                 # no per-function condition besides skipping the main region
                 extra = []
                 for t, p in (guard_atoms(cfg, ids[0]) if ids else []):
@@ -425,7 +425,26 @@ def rule_functions_below_modules(repo, chk, R):
                         extra.append(norm(t))
                 ok_mod = full and not extra
     if not found:
-        raise AnalysisError("assign_registers: the statement that makes every function a callee of the module scopes (called_from[..].update(<modules>)) was not found")
+        # nothing adds scopes to the entries of called_from in place.  Do the module names reach them in another way (a
+        # comprehension, a union)?  If they are only ever iterated to create the module entries themselves, no function is a
+        # callee of a module scope.
+        other_use = False
+        for n in ast.walk(af):
+            if isinstance(n, (ast.Name, ast.Attribute, ast.Call)) and all_modules(n, n) and not isinstance(getattr(n, "parent", None), (ast.Attribute,)):
+                p = getattr(n, "parent", None)
+                if isinstance(p, ast.Call) and norm(p.func) in ("set", "sorted", "list", "tuple", "frozenset", "enumerate", "len"):
+                    continue                      # part of a larger expression that is looked at itself
+                if isinstance(p, ast.Assign) and p.value is n:
+                    continue                      # bound to a local: its uses are looked at
+                if isinstance(p, (ast.For, ast.comprehension)) and p.iter is n:
+                    body = p.body if isinstance(p, ast.For) else []
+                    creates = any(isinstance(x, ast.Assign) and any(isinstance(t, ast.Subscript) and "called_from" in norm(t.value) for t in x.targets) for st in body for x in ast.walk(st))
+                    if creates or not body:
+                        continue                  # the loop that creates the module entries
+                other_use = True
+        if other_use:
+            raise AnalysisError("assign_registers: the statement that makes every function a callee of the module scopes (called_from[..].update(<modules>)) was not found")
+        detail = []
     chk.judge(R, "register_assignment:assign_registers:every function scope is a callee of every library module scope", ok_mod,
               f"functions are marked as called from {detail or 'no module scope'}: expected the set of ALL library modules for every function. Module-level values "
               f"live for the whole program, so a function that skips one module's scope can be given a register that holds that module's global",
